@@ -12,7 +12,11 @@ RULE = (
     "clean, or gets an exception injected at one of its effect points (every point is tried for the first call of a history), or is "
     "a model that fails at compile time. Oracle: result = the reference interpreter's value of the last form; after EVERY call, "
     "normal or raising, ('hy' in d) == had_before and d['hy'] is the same object, for every dictionary passed. "
-    "Non-trivial = the call raised (at run or compile time) or a prior hy entry existed; distinct by (sources, plan)"
+    "Second leg: histories of 1..3 calls whose last form is or ends in a bare name (name, setv-then-name, statement-needing last "
+    "form, closure, augmented assignment) on dictionaries that bind the same names differently in globals and locals, also with fresh "
+    "locals per call; reference = CPython's exec/eval of the equivalent Python on copies of the dictionaries (value, exception type, "
+    "watched names afterwards). Non-trivial = the call raised (at run or compile time) or a prior hy entry existed, or separate "
+    "locals; distinct by (sources, plan)"
 )
 ASSUMPTIONS = ["reference interpreter vf/progs.py for the returned value", "programs are wrapped in a function call so that their variables are function locals under any namespace arrangement"]
 
@@ -91,7 +95,72 @@ def run_history(case):
     return None
 
 
+# ---------------------------------------------------------------- name lookup across separate globals / locals
+NAME_FORMS = {
+    "name": ("%(n)s", "", "%(n)s"),
+    "set-then-name": ("(do (setv %(n)s %(k)d) %(n)s)", "%(n)s = %(k)d", "%(n)s"),
+    "derived": ("(do (setv t (+ %(n)s 1)) [%(n)s t])", "t = %(n)s + 1", "[%(n)s, t]"),
+    "statement-last-form": ("(if (do (setv u %(k)d) True) (do (setv q 1) \"A%(k)d\") \"B\")", "u = %(k)d\nq = 1", "'A%(k)d'"),
+    "arithmetic": ("(+ %(n)s %(k)d)", "", "%(n)s + %(k)d"),
+    "closure": ("((fn [] %(n)s))", "", "(lambda: %(n)s)()"),
+    "two-names": ("[%(n)s %(m)s]", "", "[%(n)s, %(m)s]"),
+    "augmented": ("(do (+= %(n)s %(k)d) %(n)s)", "%(n)s += %(k)d", "%(n)s"),
+}
+NAMES = ["a", "b"]
+
+
+def check_names(case):
+    """histories of hy.eval calls whose last form is (or ends in) a bare name, on dictionaries that bind the same names
+    differently; CPython's exec/eval of the equivalent Python on copies of the dictionaries is the reference"""
+    import hy
+
+    g = dict(case["g"])
+    l = dict(case["l"]) if case["l"] is not None else None
+    g2 = dict(g)
+    l2 = dict(l) if l is not None else None
+    for step, call in enumerate(case["calls"]):
+        form = NAME_FORMS.get(call["form"])
+        if form is None or call["n"] not in NAMES or call["m"] not in NAMES:
+            return None
+        sub = dict(n=call["n"], m=call["m"], k=int(call["k"]))
+        hsrc, pstmts, pexpr = (x % sub for x in form)
+        fresh_locals = call.get("fresh_locals") and l is not None
+        ll, ll2 = ({}, {}) if fresh_locals else (l, l2)
+
+        def py():
+            if pstmts:
+                exec(compile(pstmts, "<ref>", "exec"), g2, ll2) if ll2 is not None else exec(compile(pstmts, "<ref>", "exec"), g2)
+            return eval(pexpr, g2, ll2) if ll2 is not None else eval(pexpr, g2)
+
+        def hyrun():
+            return hy.eval(hy.read(hsrc), g, ll) if ll is not None else hy.eval(hy.read(hsrc), g)
+
+        outs = []
+        for f in (py, hyrun):
+            try:
+                outs.append("value:%r" % (f(),))
+            except RecursionError:
+                raise
+            except Exception as e:  # noqa
+                outs.append("raise:" + type(e).__name__)
+        if outs[0] != outs[1]:
+            return ("name-lookup-differs:%s:%s" % (call["form"], "separate-locals" if l is not None else "globals-only"),
+                    dict(source=hsrc, python=(pstmts + " ; " + pexpr), step=step, globals=case["g"], locals=case["l"], fresh_locals=bool(fresh_locals),
+                         expected=outs[0], actual=outs[1]))
+        watch = NAMES + ["t", "u", "q"]
+        for label, d, d2 in (("globals", g, g2), ("locals", ll, ll2)):
+            if d is None:
+                continue
+            a = {k: d.get(k, "<absent>") for k in watch}
+            b = {k: d2.get(k, "<absent>") for k in watch}
+            if a != b:
+                return ("namespace-differs-after-call:" + label, dict(source=hsrc, step=step, expected=b, actual=a))
+    return None
+
+
 def check_case(case):
+    if case.get("kind") == "names":
+        return check_names(case)
     for c in case["calls"]:
         if "prog" in c and not P.valid(c["prog"]):
             return None
@@ -148,6 +217,31 @@ def shard(ctx):
                 ctx.fail(v, r[0], r[1])
 
     ctx.hyp(hist, one, ctx.per_shard(700, 30000), "histories")
+
+    binding = st.sampled_from(["none", "g", "l", "both"])
+    ncall = st.builds(lambda f, n, m, k, fl: dict(form=f, n=n, m=m, k=k, fresh_locals=fl), st.sampled_from(sorted(NAME_FORMS)), st.sampled_from(NAMES),
+                      st.sampled_from(NAMES), st.integers(2, 9), st.sampled_from([False, False, True]))
+
+    def mk(ba, bb, sep, calls):
+        g, l = {}, ({} if sep else None)
+        for name, b, base in (("a", ba, 10), ("b", bb, 20)):
+            if b in ("g", "both") or (b == "l" and l is None):
+                g[name] = base
+            if l is not None and b in ("l", "both"):
+                l[name] = base + 5
+        return dict(kind="names", g=g, l=l, calls=calls)
+
+    def one_names(case):
+        both = case["l"] is not None and any(n in case["g"] and n in case["l"] for n in NAMES)
+        ctx.case(key=json.dumps(case, sort_keys=True), nontrivial=case["l"] is not None,
+                 cls=["names:" + ("separate-locals" if case["l"] is not None else "globals-only")] + (["names:bound-in-both-dictionaries"] if both else [])
+                 + ["names:form:" + c["form"] for c in case["calls"]],
+                 sample="%s g=%s l=%s" % ([NAME_FORMS[c["form"]][0] % dict(n=c["n"], m=c["m"], k=c["k"]) for c in case["calls"]], case["g"], case["l"]))
+        r = check_case(case)
+        if r is not None:
+            ctx.fail(case, r[0], r[1])
+
+    ctx.hyp(st.builds(mk, binding, binding, st.booleans(), st.lists(ncall, min_size=1, max_size=3)), one_names, ctx.per_shard(4000, 120000), "names")
 
 
 MATCHERS = {}
